@@ -44,7 +44,25 @@ def _children(tok):
     return [], ""
 
 
+def _check_template_string(tok, src, out, path):
+    """The pieces of an interpolated string cover its text: between two consecutive pieces (and before the first / after the
+    last) lies nothing but the interpolation brackets `${` and `}` - no character of the literal is left out of every piece."""
+    cursor = tok.start
+    for p in tok.template:
+        gap = src[cursor:p.start]
+        out["checked"] += 1
+        if gap not in ("", "${", "}", "}${"):
+            out["violations"].append({"text": src, "index": cursor, "outcome": f"{gap!r} between the pieces of the template string in {path} belongs to no piece (only `${{` and `}}` may)"})
+        cursor = p.stop
+    tail = src[cursor:tok.stop]
+    out["checked"] += 1
+    if tail not in ("'", '"', "}'", '}"'):
+        out["violations"].append({"text": src, "index": cursor, "outcome": f"{tail!r} after the last piece of the template string in {path} belongs to no piece"})
+
+
 def _check_nesting(tok, src, out, path):
+    if type(tok).__name__ == "TemplateStringToken":
+        _check_template_string(tok, src, out, path)
     kids, what = _children(tok)
     prev = None
     for k in kids:
